@@ -69,6 +69,7 @@ class Run:
         from pyworkers.worker import Worker
         s = self.sim
         before = [(r, self.truly_alive(r), r['observed_dead'], r['epoch']) for r in self.workers if r.get('ready')]
+        unknown = any(r.get('unknown') for r in self.workers)
         r = lib.call_with_deadline(lambda: list(Worker.active_children()), 600.0)
         self.ncalls += 1
         if r[0] != 'ok':
@@ -81,14 +82,19 @@ class Run:
         if len(set(ids)) != len(ids):
             self.viol('each-once', 'worker-yielded-twice', [repr(x) for x in got][:6])
         for rec, alive0, dead0, epoch0 in before:
+            if epoch0 % 2 == 1:
+                continue           # a restart of this worker was in progress when the call began: no claim
             alive1 = self.truly_alive(rec)
             inn = any(x is rec['w'] for x in got)
             if alive0 and alive1 and rec['epoch'] == epoch0 and not inn:
                 self.viol('live-workers-yielded', f'live-worker-missing:{rec["kind"]}:restarted={rec["epoch"] > 0}',
                           {'w': repr(rec['w']), 'dead_flag': getattr(rec['w'], '_dead', None), 'registry': len(s.root_proc.registry),
                            'in_registry': any(x is rec['w'] for x in s.root_proc.registry)})
-            if inn and dead0 and rec['epoch'] == epoch0:
-                self.viol('dead-workers-dropped', f'dead-worker-yielded:{rec["kind"]}', repr(rec['w']))
+            if inn and dead0 and rec['epoch'] == epoch0 and rec.get('ready'):
+                w = rec['w']
+                self.viol('dead-workers-dropped', f'dead-worker-yielded:{rec["kind"]}',
+                          {'w': repr(w), 'is_alive_now': lib.timed(w.is_alive)[1], '_dead': getattr(w, '_dead', '?'), '_started': getattr(w, '_started', '?'),
+                           'epoch': [rec['epoch'], epoch0], 'owner': rec.get('owner'), 'me': s.me().name, 'hist': rec.get('hist')})
         known = {id(r['w']) for r in self.workers}
         for x in got:
             if id(x) not in known and not any(r.get('creating') for r in self.workers):
@@ -130,8 +136,10 @@ class Run:
                 if rec is None:
                     continue
                 w = rec['w']
+                rec.setdefault('hist', []).append([name, round(s.now, 3)])
                 if name == 'wait':
                     r = lib.call_with_deadline(w.wait, 600.0, timeout=5)
+                    rec['hist'].append(['wait->', r[0], lib.safe_repr(r[1]), round(s.now, 3)])
                     if r[0] == 'ok' and r[1] is True:
                         rec['observed_dead'] = True
                 elif name == 'terminate':
@@ -147,6 +155,9 @@ class Run:
                     rec['epoch'] += 1          # from now on the worker may legitimately be dead or alive
                     r = lib.call_with_deadline(w.restart, 600.0, timeout=1)
                     rec['epoch'] += 1
+                    if r[0] != 'ok':
+                        rec['ready'] = False      # state unknown after a failed / refused restart: no further claims about it
+                        rec['unknown'] = True
                     if r[0] == 'ok':
                         rec['observed_dead'] = False
                         try:
@@ -178,7 +189,7 @@ class Run:
                 self.viol('autoclose', f'autoclose-block-{r[0]}:{type(r[1]).__name__ if r[1] is not None else None}')
             else:
                 left = [rec['kind'] for rec in self.workers if rec.get('ready') and self.truly_alive(rec)]
-                if left:
+                if left and s.clock_mode != 'adversarial':      # liveness clause: responsive clock only
                     self.viol('autoclose', 'live-worker-left-after-autoclose:' + ','.join(sorted(set(left))), left)
             if c['remote']:
                 # the block closed the server too (it is a registered worker): start a new one
@@ -203,7 +214,7 @@ class Run:
                     if lib.base_kind(rec['kind']) == 'thread':
                         kw['force'] = False
                     lib.call_with_deadline(w.terminate, 600.0, **kw)
-        alive = [rec for rec in self.workers if (rec.get('ready') or rec.get('server')) and (self.truly_alive(rec) or lib.timed(rec['w'].is_alive)[1] is not False)]
+        alive = [rec for rec in self.workers if rec.get('w') is not None and (rec.get('unknown') or self.truly_alive(rec) or lib.timed(rec['w'].is_alive)[1] is not False)]
         r = lib.call_with_deadline(lambda: list(Worker.active_children()), 600.0)
         if r[0] == 'ok':
             extra = [x for x in r[1] if not any(x is rec['w'] for rec in alive)]
